@@ -227,6 +227,14 @@ Definition write_slice (l : qvec) (off : nat) (vals : qvec) : option qvec :=
   else if n =? 1 then Some (firstn off l ++ repeat (nth 0 vals 0%Q) m ++ skipn (off + m) l)
   else None.
 
+(* one pass of the assembly loop (:241-245): the piece's ordinates are written at the running offset, which then advances
+   to the piece's last ordinate (shared with the next piece) *)
+Definition astep (st : option qvec * nat) (po : qvec) : option qvec * nat :=
+  match fst st with
+  | None => st
+  | Some acc => (write_slice acc (snd st) po, snd st + (length po - 1))
+  end.
+
 (* location of the i-th piece along `direction` (:229).  Pinned: `tuple(i if k == direction else 0 for k in
    range(decomposition.dimension()))` compares a POSITION k among the meshed directions with the space DIRECTION — right
    only when the meshed directions are a prefix of (x, y, z) (finding F-C06c).  Repaired: compare directions. *)
@@ -250,8 +258,7 @@ Definition pvtr_ordinates (fix_c fix_e : bool) (exts : list (list Z)) (piece_ord
                             let loc := pvtr_location fix_c meshed d i in
                             (* order[loc] raises an IndexError when loc lies outside the piece lattice *)
                             if forallb (fun im => fst im <? snd im) (combine loc (pieces_shape (merger_decomposition exts))) then
-                              let po := nth d (nth (domain_id exts loc) piece_ords []) [] in
-                              (write_slice acc (snd st) po, snd st + (length po - 1))
+                              astep st (nth d (nth (domain_id exts loc) piece_ords []) [])
                             else (None, snd st)
                         end)
                      (seq 0 (length (nth d sizes [])))
